@@ -3,6 +3,7 @@ mod common;
 mod det;
 mod kv;
 mod reg;
+mod route;
 mod staking;
 mod tree;
 
@@ -31,6 +32,7 @@ fn run(id: &str, ctx: &Ctx) -> i32 {
         "C14" => staking::run_c14(ctx),
         "C15" => staking::run_c15(ctx),
         "C16" => staking::run_c16(ctx),
+        "C17" => route::run_c17(ctx),
         "C18" => addr::run_c18(ctx),
         "C19" => det::run_c19(ctx),
         _ => machinery_error(&format!("no check for {}", id)),
@@ -50,6 +52,7 @@ fn replay(path: &str) -> i32 {
         "C06" => kv::replay_c06(&ctx, case),
         "C07" => kv::replay_c07(&ctx, case),
         "C14" | "C15" | "C16" => staking::replay(&ctx, case),
+        "C17" => route::replay_c17(&ctx, case),
         "C18" => addr::replay_c18(&ctx, case),
         "C19" => det::replay_c19(&ctx, case),
         _ => machinery_error(&format!("no replay for {}", id)),
